@@ -1,6 +1,8 @@
 package pebble
 
 import (
+	"context"
+
 	"github.com/cockroachdb/pebble/internal/base"
 	"github.com/cockroachdb/pebble/internal/keyspan"
 	"github.com/cockroachdb/pebble/internal/keyspan/keyspanimpl"
@@ -17,44 +19,86 @@ type hEmittedSpan struct {
 // deletions which, replayed into an empty store, give the same visible state
 // as the source at the scan's sequence number - at every key of the span.
 func hInternalScan(N, L int, kinds []base.InternalKeyKind, bounded bool) {
+	hInternalScanVia(N, L, kinds, bounded, false)
+}
+
+// With viaDB the scan is the real DB.ScanInternal / Snapshot-style scan (newInternalIter,
+// finishInitializingInternalIter, constructPointIter and constructRangeKeyIter, scanInternalImpl
+// and its visitor callbacks) over a version of stub tables (tables.go); otherwise the
+// point-collapsing iterator is wired by hand over slice levels.
+func hInternalScanVia(N, L int, kinds []base.InternalKeyKind, bounded, viaDB bool) {
 	n := 1 + sym.Choose("n", N)
 	h := hHistory(n, kinds)
 	hPlace(h, L)
 	seqNum := base.SeqNum(sym.Range("seqNum", 1, n+1))
 	lower, upper, lo, hi := hBoundsFor(bounded)
 
-	mi := hNewMerging(h, L, seqNum, lower, upper)
-	var rdIters []keyspan.FragmentIterator
-	for _, lv := range hBuildLevels(h, L) {
-		rdIters = append(rdIters, lv.rangeDelIter)
-	}
-	var rangeDelMiter keyspanimpl.MergingIter
-	rangeDelMiter.Init(base.DefaultComparer, keyspan.VisibleTransform(seqNum), new(keyspanimpl.MergingBuffers), rdIters...)
-	pc := &pointCollapsingIterator{comparer: base.DefaultComparer, merge: base.DefaultMerger.Merge, seqNum: seqNum}
-	pc.iter.Init(base.DefaultComparer, mi, &rangeDelMiter, keyspan.InterleavingIterOpts{LowerBound: lower, UpperBound: upper})
-
 	var points []hIKey
 	var spans []hEmittedSpan
-	steps := 0
-	for kv := pc.First(); kv != nil; kv = pc.Next() {
-		steps++
-		sym.Assert(steps <= 2*len(h)+2, "scan-terminates")
-		if kv.Kind() == hKRDel {
-			sp := pc.Span()
-			sym.Assert(sp != nil, "rangedel-has-span")
-			if sp == nil {
-				return
-			}
-			e := hEmittedSpan{start: sp.Start[0], end: sp.End[0]}
-			for _, k := range sp.Keys {
-				e.trailers = append(e.trailers, uint64(k.Trailer))
-			}
-			spans = append(spans, e)
-			continue
+	if viaDB {
+		d := hDBOver(hBuildLevels(h, L), seqNum)
+		sopts := snapshotIterOpts{}
+		if sym.Bool("through-snapshot") {
+			sopts.seqNum = seqNum
+			d.mu.versions.visibleSeqNum.Store(base.SeqNum(n + 1))
 		}
-		points = append(points, hIK(kv))
+		if lower == nil { // ScanInternal seeks to the lower bound
+			lower, upper = []byte{0}, []byte{255}
+		}
+		opts := ScanInternalOptions{
+			IterOptions: IterOptions{KeyTypes: IterKeyTypePointsAndRanges, LowerBound: lower, UpperBound: upper},
+			VisitPointKey: func(key *InternalKey, value LazyValue, _ IteratorLevel) error {
+				sym.Assert(len(key.UserKey) == 1, "ikey-length")
+				points = append(points, hIKey{key.UserKey[0], uint64(key.Trailer)})
+				sym.Assert(len(points) <= 2*len(h)+2, "scan-terminates")
+				return nil
+			},
+			VisitRangeDel: func(start, end []byte, seq base.SeqNum) error {
+				spans = append(spans, hEmittedSpan{start: start[0], end: end[0], trailers: []uint64{uint64(base.MakeTrailer(seq, hKRDel))}})
+				sym.Assert(len(spans) <= 2*len(h)+2, "scan-terminates")
+				return nil
+			},
+		}
+		it, err := d.newInternalIter(context.Background(), sopts, &opts)
+		sym.Assert(err == nil, "no-error")
+		if err != nil {
+			return
+		}
+		sym.Assert(scanInternalImpl(context.Background(), it, &opts) == nil, "no-error")
+		sym.Assert(it.Close() == nil, "close")
+		sym.Assert(d.readState.val.refcnt.Load() == 1, "read-state-references-released")
+	} else {
+		mi := hNewMerging(h, L, seqNum, lower, upper)
+		var rdIters []keyspan.FragmentIterator
+		for _, lv := range hBuildLevels(h, L) {
+			rdIters = append(rdIters, lv.rangeDelIter)
+		}
+		var rangeDelMiter keyspanimpl.MergingIter
+		rangeDelMiter.Init(base.DefaultComparer, keyspan.VisibleTransform(seqNum), new(keyspanimpl.MergingBuffers), rdIters...)
+		pc := &pointCollapsingIterator{comparer: base.DefaultComparer, merge: base.DefaultMerger.Merge, seqNum: seqNum}
+		pc.iter.Init(base.DefaultComparer, mi, &rangeDelMiter, keyspan.InterleavingIterOpts{LowerBound: lower, UpperBound: upper})
+
+		steps := 0
+		for kv := pc.First(); kv != nil; kv = pc.Next() {
+			steps++
+			sym.Assert(steps <= 2*len(h)+2, "scan-terminates")
+			if kv.Kind() == hKRDel {
+				sp := pc.Span()
+				sym.Assert(sp != nil, "rangedel-has-span")
+				if sp == nil {
+					return
+				}
+				e := hEmittedSpan{start: sp.Start[0], end: sp.End[0]}
+				for _, k := range sp.Keys {
+					e.trailers = append(e.trailers, uint64(k.Trailer))
+				}
+				spans = append(spans, e)
+				continue
+			}
+			points = append(points, hIK(kv))
+		}
+		sym.Assert(pc.Error() == nil, "no-error")
 	}
-	sym.Assert(pc.Error() == nil, "no-error")
 
 	// every emitted item is one of the source's writes
 	for _, o := range points {
@@ -104,3 +148,12 @@ func VerifHarness_C45_InternalScan() { hInternalScan(3, 2, hScanKinds, false) }
 func VerifHarness_C45_InternalScanBounded() { hInternalScan(2, 2, hScanKinds, true) }
 
 func VerifHarness_C45_InternalScan_Thorough() { hInternalScan(4, 3, hScanKinds, true) }
+
+// the real DB.ScanInternal front end and visitor loop over stub tables
+func VerifHarness_C45_ScanInternalDB() { hInternalScanVia(2, 2, hScanKinds, false, true) }
+
+func VerifHarness_C45_ScanInternalDBBounded_Thorough() {
+	hInternalScanVia(2, 2, hScanKinds, true, true)
+}
+
+func VerifHarness_C45_ScanInternalDB3_Thorough() { hInternalScanVia(3, 2, hScanKinds, false, true) }
